@@ -5,7 +5,9 @@ package nodeslo
 // Engine `nodeslo` (C20): the real slo-controller NodeSLO pipeline -- SLOCfgHandlerForConfigMapEvent (Create/Update/Delete,
 // syncConfig with keep-old-on-error), the section merge functions of resource_strategy.go (through util.MergeCfg),
 // getNodeSLOSpec and NodeSLOReconciler.Reconcile -- driven by a simulated ConfigMap / Node / NodeSLO informer transport,
-// a simulated workqueue and an API store with injected faults.
+// a simulated workqueue and an in-memory API store behind controller-runtime's interceptor.Funcs (injected faults).
+// The controller is single-threaded (one worker): the driver picks the next delivery / reconcile with r.Choose, there
+// are no actors and no lock instrumentation.
 //
 // The oracle is a reference model written from the statement only: a GENERIC JSON OVERLAY over the serialised strategies.
 // It never looks at a Go struct: it parses the ConfigMap section text with encoding/json into map[string]any, picks the
